@@ -392,6 +392,7 @@ pub fn check_main(a: CheckArgs) -> i32 {
     let mut minimise_execs = 0u64;
     let mut violations_total = 0u64;
     let mut dims: BTreeMap<String, u64> = BTreeMap::new();
+    let mut gen_stats: BTreeMap<String, u64> = BTreeMap::new();
     let mut skipped_after_deaths = 0u64;
     let mut deaths = 0u64;
     let mut samples: Vec<Value> = vec![];
@@ -419,6 +420,9 @@ pub fn check_main(a: CheckArgs) -> i32 {
         deaths += d["deaths"].as_u64().unwrap_or(0);
         for (k, v) in d["dims"].as_object().cloned().unwrap_or_default() {
             *dims.entry(k).or_default() += v.as_u64().unwrap_or(0);
+        }
+        for (k, v) in d["gen"].as_object().cloned().unwrap_or_default() {
+            *gen_stats.entry(k).or_default() += v.as_u64().unwrap_or(0);
         }
         for s in d["samples"].as_array().cloned().unwrap_or_default() {
             if samples.len() < 4 {
@@ -448,7 +452,7 @@ pub fn check_main(a: CheckArgs) -> i32 {
     let mut known_hits: Vec<String> = vec![];
     viols.sort_by(|a, b| (a.clause.clone(), a.module.clone(), a.component.clone(), a.replay.clone()).cmp(&(b.clause.clone(), b.module.clone(), b.component.clone(), b.replay.clone())));
     for v in viols {
-        if !seen.insert((class(&v.clause).to_string(), v.module.clone(), v.component.clone())) {
+        if !seen.insert((class(&v.clause).to_string(), crate::child::module_class(&v.module), v.component.clone())) {
             let _ = std::fs::remove_file(&v.replay);
             continue;
         }
@@ -495,6 +499,8 @@ pub fn check_main(a: CheckArgs) -> i32 {
                 "executions_that_died": deaths,
                 "runs_skipped_after_repeated_deaths": skipped_after_deaths,
                 "solo": {"modules": modules, "tasks": tasks_n, "processes_per_task": solo_tables_n, "solo_executions": solo_evals, "tasks_with_process_dependent_result": unstable.len(), "table_ms_max": solo_ms},
+                "generated_workload": {"modules_generated": gen_stats.get("generated"), "of_which_tsx": gen_stats.get("ts"), "dropped_as_unparseable": gen_stats.get("unparseable"), "with_diagnostics": gen_stats.get("with_diags"), "solo_executions": gen_stats.get("solo_execs"),
+                    "note": "stratum `gen`: every run draws 1-3 fresh modules and option sets from its PRNG (sim/src/gen.rs), computes their solo references in two fresh processes with different hash keys (T, R and the fresh-process clause of D on each module alone), and runs what returns next to each other and next to bystanders from the fixed workload on a randomly drawn host with faults; a violating module's text is minimised line by line and embedded in the replay file"},
                 "world": world,
                 "simulated_runs": sim_runs,
                 "nontrivial_runs": nontrivial_runs,
